@@ -32,3 +32,10 @@ SPEC_ENTRY = {'title': 'The device never sees an available index covering an inc
                'Proofs/QueueProps.v',
                'all_chains_walk',
                'in every reachable state every outstanding entry is completely written (sequentially consistent memory)')]}
+
+# ---- the monitors evaluated on the IMPLEMENTATION's observations, tied to the statements they stand for (Proofs/QueueMonProofs.v):
+# ---- "meaning" = what a true verdict implies, for any input list; "holds_of_model" = no false alarm on code that behaves like the model
+SPEC_ENTRY['imports'] += [m for m in ['Extract.QueueMon', 'Proofs.QueueMonProofs'] if m not in SPEC_ENTRY['imports']]
+SPEC_ENTRY['theorems'] += [
+  ('C02_monitor_158_meaning', 'Proofs/QueueMonProofs.v', 'mon158_sound', 'monitor 158: at no checked instant was an entry below the visible index incomplete'),
+]
